@@ -227,7 +227,9 @@ Idx(seq) == 1 .. Len(seq)
 
 \* C07: the Krylov identities at a point where the factorization is passed on
 EvMFac(e) ==
-    LET bnd == QC_KRY + cx.qn + QEPS(cx.ty) IN
+    \* rounding errors accumulate with every implicit restart (V <- V Q): the bound grows linearly in the
+    \* number of restarts performed on this factorization
+    LET bnd == QC_KRY + cx.qn + QEPS(cx.ty) + QLog2Up(s.restarts + 1) IN
     Res(s, If(e.shape = 1, "FacShape")
            \cup (IF e.shape = 1 THEN
                    If(e.fin = 1, "FacFinite")
@@ -235,8 +237,9 @@ EvMFac(e) ==
                    \cup If(QLe(e.qVV, bnd), "KrylovVV")
                    \cup If(QLe(e.qVf, bnd) \/ QLe(e.qVfr, bnd + 64), "KrylovVf")
                    \cup If(QLe(e.qbeta, bnd), "KrylovBeta")
-                   \cup If(e.hess = 1, "Hessenberg")
+                   \cup If(QLe(e.qHlow, bnd), "Hessenberg")
                    \cup If(e.tri = 1, "TridiagonalSymmetric")
+                   \cup If(QLe(e.qHim, bnd), "KrylovRealH")
                    \cup If(e.at = "FacStep" \/ e.k = s.k, "KAdvertised")
                  ELSE {}), cx)
 
